@@ -266,6 +266,28 @@ pub fn run(ctx: &mut Ctx) {
             }
         }
     }
+    // conditions read from array and string data through index keys (numeric strings, negative, integer
+    // typed, out of range), directly in every deciding position
+    {
+        let datas = [json!([0, 1]), json!(["", 0, "x"]), json!("ab"), json!(""), json!([[], [0]]), json!({"0": 0, "1": "one", "-1": ""})];
+        let conds = [json!({"var": "1"}), json!({"var": "-1"}), json!({"var": 1}), json!({"var": "0"}), json!({"var": 0}), json!({"var": "5"}), json!({"var": ["7", 0]}), json!({"var": ["7", "d"]}), json!({"var": "1.0"}), json!({"var": "0.0"})];
+        for (di, d) in datas.iter().enumerate() {
+            if !ctx.mine() {
+                continue;
+            }
+            let _ = di;
+            for c in &conds {
+                ctx.edge();
+                for r in [
+                    json!({"if": [c, "then", "else"]}), json!({"?:": [c, "then", "else"]}), json!({"if": [false, "a", c, "b", "c"]}), json!({"if": [c, "then"]}), json!({"if": [c]}),
+                    json!({"and": [c, "next"]}), json!({"or": [c, "next"]}), json!({"and": ["first", c]}), json!({"or": [0, c]}), json!({"!": [c]}), json!({"!!": [c]}),
+                    json!({"filter": [[1, 2], c]}), json!({"all": [[[0, 1], [1, 0]], c]}), json!({"map": [[[0, 1], "ab"], {"if": [c, "then", "else"]}]}),
+                ] {
+                    ctx.check("index-conditions", &r, d);
+                }
+            }
+        }
+    }
     // size probes: long operand lists, the deciding operand at every position
     for n in al::size_classes(ctx.tier_thorough) {
         if n > 300 {
